@@ -421,6 +421,14 @@ func (g *c07Gen) stmts(depth int, vis []string) []*mj.Node {
 			if g.n(0, 1, "ictx") == 0 {
 				n.Ctx = mj.Str(g.id("ictx"))
 				g.labels["include-context"] = true
+				if g.n(0, 2, "inameFromDot") == 0 {
+					// the name and the context to pass are both fields of '.': the name is read from the '.'
+					// the include statement stands in, not from the one it hands over
+					row := mj.Call("map", mj.Str("P"), n.E, mj.Str("D"), n.Ctx, mj.Str("A"), mj.Call("map", mj.Str("P"), mj.Str("/no/such.jet")))
+					n.E, n.Ctx = mj.Field("P"), []*mj.Expr{mj.Field("D"), mj.Field("A")}[g.n(0, 1, "ictxField")]
+					n = &mj.Node{K: "range", E: mj.Call("slice", row), Body: []*mj.Node{n}}
+					g.labels["include-name-and-context-from-dot"] = true
+				}
 			}
 			out = append(out, n)
 			out = append(out, g.probes(vis)...)
@@ -435,6 +443,31 @@ func (g *c07Gen) stmts(depth int, vis []string) []*mj.Node {
 			} else {
 				out = append(out, g.capture(vis)...)
 			}
+		case k == 14 && g.n(0, 1, "swallowed") == 0:
+			// isset() answers false when looking fails - here: a template executed for the answer fails half-way,
+			// inside constructs that rebind '.', open scopes or hold yield content. Nothing of that stays behind.
+			fail := []*mj.Node{mj.Let(c07Locals[g.n(0, 2, "swLeak")], mj.Str("LEAK")), mj.Text("!"), mj.Print(mj.Var("noSuchName"))}
+			var body []*mj.Node
+			switch g.n(0, 4, "swWrap") {
+			case 0:
+				body = []*mj.Node{{K: "range", E: mj.Call("slice", mj.Str("e0"), mj.Str("e1")), Body: fail}}
+			case 1:
+				body = []*mj.Node{{K: "range", E: mj.Call("slice", mj.Str("e0")), Decl: true, Names: []string{c07Locals[g.n(0, 2, "swK")], "swv"}, Body: fail}}
+			case 2:
+				h := c07Locals[g.n(0, 2, "swH")]
+				body = []*mj.Node{{K: "if", Hdr: &mj.Node{K: "let", Decl: true, Names: []string{h}, Es: []*mj.Expr{mj.Str("HDR")}}, E: mj.Var(h), Body: fail}}
+			case 3:
+				body = []*mj.Node{{K: "block", Name: g.id("swb"), Ctx: mj.Str("BLOCK-CTX"), Body: fail}}
+			default:
+				body = []*mj.Node{{K: "yield", Name: "wrapctx", HasCont: true, Content: fail}}
+			}
+			path := g.newFile(body)
+			if body[0].K == "yield" {
+				g.p.Files[len(g.p.Files)-1].Imports = []string{"/lib.jet"}
+			}
+			out = append(out, mj.Text("(sw:"), mj.Print(mj.Call("isset", mj.Chain(mj.Call("exec", mj.Str(path)), "x"))), mj.Text(")"))
+			out = append(out, g.probes(vis)...)
+			g.labels["read-after-failure-swallowed-by-isset:"+body[0].K] = true
 		default:
 			out = append(out, g.probes(vis)...)
 		}
